@@ -182,7 +182,7 @@ Epilogue == <<"X">>                  \* return 0; }
 Bodies == UNION {[1..n -> Kinds] : n \in 1..MaxLen}
 ScSet == {[body |-> b, eol |-> e, final |-> f] : b \in Bodies, e \in Eols, f \in BOOLEAN}
 ScSeq == SetToSeq(ScSet)
-Chosen == {i \in DOMAIN ScSeq : (i * 7919 + Seed) % Stride = 0}
+Chosen == {i \in DOMAIN ScSeq : ((i % Stride) * (7919 % Stride) + Seed) % Stride = 0}   \* = (i*7919 + Seed) % Stride, without 32-bit overflow
 UnitsOf(s) == Prologue \o s.body \o Epilogue
 
 VARIABLES sc, resA, resI, done
